@@ -6,6 +6,8 @@ import (
 
 	"github.com/evstack/ev-node/types"
 	pb "github.com/evstack/ev-node/types/pb/evnode/v1"
+	"github.com/libp2p/go-libp2p/core/crypto"
+	"google.golang.org/protobuf/encoding/protowire"
 	"google.golang.org/protobuf/proto"
 
 	"verifharness/monitors"
@@ -26,6 +28,38 @@ type Adv struct {
 // Kinds of adversarial items.
 var Kinds = []string{"forged-otherkey", "forged-pair-header", "forged-pair-data", "resigned-data-copy", "mutated-resigned", "unsigned-linked",
 	"garbage-signed", "keyless-signer-header", "keyless-signer-data", "sig-transplant", "past-height", "future-height", "wrong-chain", "own-address", "truncated", "bitflip", "random", "empty", "structured-junk", "resigned-header-copy", "garbage-signed-copy"}
+
+// ExtraKinds are cooperating items and hand-made encodings. They are drawn only by the dedicated case list (replay.go):
+// the draw from Kinds stays what it was.
+//
+// forged-then-keyswap / keyswap-then-forged (and data-...): two items. One is a self-consistent forgery under the
+// proposer's address (signed with and carrying the forger's key); the other is the very same payload and signature
+// carrying the PROPOSER's public key instead. Neither was signed by the proposer, in whichever order they arrive.
+//
+// data-second-field-* / header-second-field-*: a verbatim copy of a genuine blob with one more occurrence of its embedded
+// message field (field 1: `data` resp. `header`) appended or prepended. Decoders merge repeated occurrences of an
+// embedded message, so the blob decodes to the genuine item PLUS the attacker's transactions / metadata / header
+// fields, next to the proposer's signature over the genuine bytes. No encoder of the node produces this shape.
+var ExtraKinds = []string{"forged-then-keyswap", "keyswap-then-forged", "data-forged-then-keyswap", "data-keyswap-then-forged",
+	"data-second-field-appended", "data-second-field-prepended", "data-second-field-metadata-only", "header-second-field-appended", "header-second-field-prepended"}
+
+// ordered tells whether the items of a kind have to reach the node in the order MakeAdv returns them.
+func ordered(kind string) bool {
+	switch kind {
+	case "forged-then-keyswap", "keyswap-then-forged", "data-forged-then-keyswap", "data-keyswap-then-forged":
+		return true
+	}
+	return false
+}
+
+// withField1 returns blob with one more occurrence of field 1 (an embedded message, encoded in msg) after or before it.
+func withField1(blob, msg []byte, after bool) []byte {
+	f := protowire.AppendBytes(protowire.AppendTag(nil, 1, protowire.BytesType), msg)
+	if after {
+		return append(append([]byte{}, blob...), f...)
+	}
+	return append(f, blob...)
+}
 
 func signHeader(h *types.SignedHeader, k world.Keys) {
 	payload, err := h.Header.MarshalBinary()
@@ -81,6 +115,11 @@ func headerBlob(h *types.SignedHeader) []byte {
 }
 
 func signedDataBlob(height uint64, chainID string, t uint64, txs [][]byte, atk world.Keys, addr []byte) ([]byte, []byte) {
+	return signedDataBlobCarrying(height, chainID, t, txs, atk, atk.Pub, addr)
+}
+
+// signedDataBlobCarrying: signed with atk's private key, carrying the public key pub.
+func signedDataBlobCarrying(height uint64, chainID string, t uint64, txs [][]byte, atk world.Keys, pub crypto.PubKey, addr []byte) ([]byte, []byte) {
 	d := types.Data{Metadata: &types.Metadata{ChainID: chainID, Height: height, Time: t}}
 	for _, tx := range txs {
 		d.Txs = append(d.Txs, tx)
@@ -93,7 +132,7 @@ func signedDataBlob(height uint64, chainID string, t uint64, txs [][]byte, atk w
 	if err != nil {
 		panic(err)
 	}
-	sd := types.SignedData{Data: d, Signature: sig, Signer: types.Signer{PubKey: atk.Pub, Address: addr}}
+	sd := types.SignedData{Data: d, Signature: sig, Signer: types.Signer{PubKey: pub, Address: addr}}
 	b, err := sd.MarshalBinary()
 	if err != nil {
 		panic(err)
@@ -252,6 +291,103 @@ func MakeAdv(rng *rand.Rand, p *world.Produced, kind string, i int, atk world.Ke
 			out = append(out, a)
 		}
 		return out
+	case "forged-then-keyswap", "keyswap-then-forged":
+		var txs [][]byte // an empty forged block needs no data at all
+		if rng.Intn(3) == 0 {
+			txs = atkTxs
+		}
+		a := forgeHeader(p, i, atk, txs, chain, addr)
+		b := *a
+		b.Signer = types.Signer{PubKey: p.Keys.Pub, Address: addr}
+		out := []Adv{mk(a, "replay-forged"), mk(&b, "replay-keyswap")}
+		if kind == "keyswap-then-forged" {
+			out[0], out[1] = out[1], out[0]
+		}
+		return out
+	case "data-forged-then-keyswap", "data-keyswap-then-forged":
+		t := p.Header(i).BaseHeader.Time
+		fb, comm := signedDataBlobCarrying(height, chain, t, atkTxs, atk, atk.Pub, addr)
+		kb, _ := signedDataBlobCarrying(height, chain, t, atkTxs, atk, p.Keys.Pub, addr)
+		out := []Adv{{Kind: "replay-data-forged", Height: height, IsData: true, Blob: fb, DataComm: comm}, {Kind: "replay-data-keyswap", Height: height, IsData: true, Blob: kb, DataComm: comm}}
+		if kind == "data-keyswap-then-forged" {
+			out[0], out[1] = out[1], out[0]
+		}
+		return out
+	case "data-second-field-appended", "data-second-field-prepended", "data-second-field-metadata-only":
+		for j := i; j < n; j++ {
+			if len(p.Txs[j]) == 0 || p.DataBlob[j] == nil {
+				continue
+			}
+			second := &pb.Data{}
+			claimed := p.Heights[j]
+			switch rng.Intn(3) {
+			case 0: // the height of a later block, or of the block after the tip
+				claimed = p.Heights[j] + 1 + uint64(rng.Intn(n-j))
+				second.Metadata = &pb.Metadata{Height: claimed}
+			case 1:
+				claimed = p.Heights[j] + 1
+				second.Metadata = &pb.Metadata{Height: claimed, Time: p.Header(j).BaseHeader.Time + 1}
+			}
+			after := kind != "data-second-field-prepended"
+			merged := append([][]byte{}, p.Txs[j]...)
+			if kind != "data-second-field-metadata-only" {
+				second.Txs = atkTxs
+				if after {
+					merged = append(merged, atkTxs...)
+				} else {
+					merged = append(append([][]byte{}, atkTxs...), merged...)
+				}
+			} else if second.Metadata == nil {
+				claimed = p.Heights[j] + 1
+				second.Metadata = &pb.Metadata{Height: claimed}
+			}
+			msg, err := proto.Marshal(second)
+			if err != nil {
+				panic(err)
+			}
+			blob := withField1(p.DataBlob[j], msg, after)
+			if hgt, isData, ok := world.DecodeBlobHeight(blob); ok && isData {
+				claimed = hgt // what a merging decoder makes of it
+			}
+			return []Adv{{Kind: kind, Height: claimed, IsData: true, Blob: blob, DataComm: monitors.Commitment(merged),
+				GenuineCommitment: kind == "data-second-field-metadata-only"}}
+		}
+		return nil
+	case "header-second-field-appended", "header-second-field-prepended":
+		second := &pb.Header{}
+		g := p.Header(i)
+		if kind == "header-second-field-prepended" {
+			// the genuine occurrence comes last and wins every field it sets: only a field the proposer left empty survives
+			// (an occurrence that survives nowhere is just another encoding of the proposer's own header)
+			switch {
+			case len(g.LastResultsHash) == 0:
+				second.LastResultsHash = monitors.Commitment(atkTxs)
+			case len(g.LastCommitHash) == 0:
+				second.LastCommitHash = monitors.Commitment(atkTxs)
+			case len(g.LastHeaderHash) == 0:
+				second.LastHeaderHash = monitors.Commitment(atkTxs)
+			default:
+				return nil
+			}
+		} else {
+			switch rng.Intn(3) {
+			case 0:
+				second.DataHash = monitors.Commitment(atkTxs)
+			case 1:
+				second.AppHash = monitors.Commitment(atkTxs)
+			default:
+				second.Height = height + 1
+			}
+		}
+		msg, err := proto.Marshal(second)
+		if err != nil {
+			panic(err)
+		}
+		a := Adv{Kind: kind, Height: height, Blob: withField1(p.HeaderBlob[i], msg, kind == "header-second-field-appended")}
+		if h := decodeHeaderLoose(a.Blob); h != nil {
+			a.Height, a.HdrHash = h.Height(), h.Hash()
+		}
+		return []Adv{a}
 	case "random":
 		b := make([]byte, 1+rng.Intn(300))
 		rng.Read(b)
